@@ -5,6 +5,7 @@ use super::asyncp::*;
 use super::cachesnap::*;
 use super::containers::*;
 use super::deep::C04Deep;
+use super::vast::C11Vast;
 use super::heavy::C14Heavy;
 use super::ffi::C17;
 use super::more::*;
@@ -80,7 +81,7 @@ fn st_x(prop: impl Property + 'static, quick: u64, thorough_scale: u64, profile:
 pub fn fuzzable(s: &Stage) -> bool {
     s.profile == Profile::Release
         && ![
-            "wide", "huge", "far-ids", "wide-root", "expensive-soft", "long", "bulk", "bulk-fat", "deep-chain", "many-soft", "giant", "exhaustive", "all-indices", "asan",
+            "wide", "huge", "far-ids", "wide-root", "expensive-soft", "long", "bulk", "bulk-fat", "deep-chain", "many-soft", "giant", "vast", "exhaustive", "all-indices", "asan",
         ]
         .contains(&s.prop.stage())
 }
@@ -155,6 +156,7 @@ pub fn stages(id: &str) -> Vec<Stage> {
             st(C11 { params: Params::fanout().with_soft(2, 150), stage: "main" }, 15_000, 500_000, Release),
             st(C11 { params: Params::wide(), stage: "wide" }, 400, 8_000, Release),
             st(C11 { params: Params::huge_package(3000).hint_heavy(), stage: "huge" }, 20, 400, Release),
+            st_n(C11Vast { stage: "vast", min: 66_000, spread: 6_000 }, 2, 12, Release),
         ],
         "C12" => vec![
             st_n(C12 { params: Params::conflict_heavy().with_soft(2, 100).with_big_unions(150).with_giant_unions(12), stage: "main", max_indices: 48, conflict_free: false }, 30_000, 120_000, Release),
